@@ -41,13 +41,16 @@ class RefCopula:
             s = 0.0
             for v in u:
                 if not math.isinf(v):
-                    s += abs(v) ** (-theta)
+                    with np.errstate(over="ignore"):
+                        s += float(np.float64(abs(v)) ** np.float64(-theta))  # inf for tiny |v|: F -> 0
             if s == 0.0:
                 return INF * 1.0 if all(v > 0 for v in u) else float("nan")
             prod_sign = 1.0
             for v in u:
                 prod_sign *= sgn(v)
             w = eta if prod_sign > 0 else -(1.0 - eta)
+            if math.isinf(s):
+                return 0.0
             return 2.0 ** (2 - len(u)) * s ** (-1.0 / theta) * w
         if t == "independent":
             tot = 0.0
